@@ -364,6 +364,10 @@ Inductive case :=
 (* samples.csv written by save_samples and read back (DirectoryPaths.samples / SearchOutput.samples) *)
 | CCsv (t : node) (rows : list (srow float))
        (loaded : res (list fsample)) (pl : res (list (list float))) (best : res (list float))
+(* an existing samples.csv (header, cells as read by an independent reader) loaded against a model whose
+   priors were re-created (aggregator: model.json), t carries the re-created priors' creation ranks *)
+| CLoadCsv (t : node) (headers : list string) (cells : list (list float))
+       (loaded : res (list fsample)) (pl : res (list (list float))) (best : res (list float))
 (* samples_summary.json: max-likelihood sample and median sample (median vector supplied by numpy) *)
 | CSummary (t : node) (rows : list (srow float)) (median : list float)
            (lmax : fsample) (vmax : res (list float)) (lmed : fsample) (vmed : res (list float))
@@ -387,6 +391,8 @@ Definition check_case (c : case) : bool :=
   | CCsv t rows loaded pl best =>
       let S := f_from_lists t rows in
       view_eqb t (csv_roundtrip fid fid PrimFloat.add fx (tuple_paths [] t) (sorted_walk t) S) loaded pl best
+  | CLoadCsv t headers cells loaded pl best =>
+      view_eqb t (csv_load fid fx (headers, cells)) loaded pl best
   | CSummary t rows median lmax vmax lmed vmed =>
       let Ws := sorted_walk t in
       let tps := tuple_paths [] t in
